@@ -183,6 +183,18 @@ func (idx *FlatIndex) Add(vector VectorNode) error {
 		return err
 	}
 
+	// Re-adding a soft-deleted ID replaces the stale entry instead of hiding the new one
+	if idx.deletedNodes.Contains(vector.ID()) {
+		kept := make([]VectorNode, 0, len(idx.vectors))
+		for _, v := range idx.vectors {
+			if v.ID() != vector.ID() {
+				kept = append(kept, v)
+			}
+		}
+		idx.vectors = kept
+		idx.deletedNodes.Remove(vector.ID())
+	}
+
 	// Simply append the preprocessed vector to our flat storage
 	idx.vectors = append(idx.vectors, vector)
 	return nil
